@@ -320,6 +320,7 @@ impl<
     pub fn clear(&self) {
         // TODO: item call back
         self.shards.iter().for_each(|shard| shard.write().clear());
+        self.em.clear();
     }
 
     pub fn hasher(&self) -> ES {
